@@ -84,7 +84,16 @@ def x_prog(ctx, case):
         pre_case = programs.build_case(program, pre_env, runner, factory if flavour == "none" else None)
         sibling = type(pre_case)("test_sibling", runTest=lambda c, handlers: RunTest(c, handlers))
         sibling._tvm_sibling = True
-        sibling.run(recorders.ExtRecorder(recorders.Log()))
+        sib_log = recorders.Log()
+        try:
+            sibling.run(recorders.ExtRecorder(sib_log))
+            sib_exc = None
+        except Exception as e:  # noqa - (an empty test with a runner factory of the older signature: ordinary use)
+            sib_exc = e
+        sib_core = [n for n in sib_log.names() if n in ("startTest", "stopTest") or n in recorders.OUTCOMES]
+        ctx.check(sib_exc is None and len(sib_core) == 3 and sib_core[0] == "startTest" and sib_core[2] == "stopTest"
+                  and sib_core[1] in recorders.OUTCOMES, "bracket.exactly-one-outcome",
+                  lambda: {"a sibling run through an old-style RunTest factory (no last_resort)": sib_core, "raised": repr(sib_exc)})
     if flavour == "none":
         run = programs.execute(program, pass_none=True, default_result=factory,
                                runner_factory=runner, env=pre_env, case=pre_case)
